@@ -242,3 +242,10 @@ def written_value_comes_back_as_the_driver_returned_it(ctx):
     (a falsy return value is a value, only None means 'no return value')"""
     from sa.rules import c04
     c04.wrapper_order(ctx)
+
+
+@rule('C12.R2c', min_instances=1)
+def no_iteration_over_mutated_collections(ctx):
+    """cross-cutting: no loop of the client / proxy iterates a live collection that its body mutates"""
+    from sa.rules import common
+    common.iterate_while_mutating(ctx, {'frappy.client', 'frappy.proxy'})
